@@ -573,11 +573,11 @@ var c08tAbbrLayouts = []string{"RFC1123", "RFC822", "UNIX", "rfc1123", "Monday, 
 
 // abbreviations no location knows, the `GMT±h` fall-back of time.parse at and beyond its ends (parseGMT accepts
 // 0..23 hours, any number of digits), abbreviations of the usual zones, the shapes parseTimeZone accepts (3, 4 or
-// 5 letters, `ChST`, `MeST`, `±hh`) and does not.  (A `GMT+` number of MORE than 19 digits with leading zeros, which
-// Go accepts - leadingInt overflows by value, not by length -, is answered <PARSE-ERROR> by `Rare.C18.parseSignedOffset`
-// (C18's file, reported): `GMT+0000000000000000000007` joins the list when that is repaired.)
+// 5 letters, `ChST`, `MeST`, `±hh`) and does not.  A `GMT+` number of MORE than 19 digits with leading zeros is accepted by
+// Go - leadingInt overflows by value, not by length (this family found `Rare.C18.parseSignedOffset` counting digits;
+// repaired by C18 r4d, 3048276).
 var c08tAbbrs = []string{"GMT", "UTC", "GMT+0", "GMT-0", "GMT+1", "GMT-1", "GMT+3", "GMT-3", "GMT+9", "GMT+10", "GMT-11", "GMT+12", "GMT-12", "GMT+14", "GMT+23", "GMT-23",
-	"GMT+24", "GMT-24", "GMT+25", "GMT+99", "GMT+03", "GMT-003", "GMT+0000000000000000007", "GMT+", "GMT-", "GMT+x", "GMT+3x", "GMT+5:30", "GMT +3", "gmt+3", "UTC+3", "UTC-3", "UT", "Z",
+	"GMT+24", "GMT-24", "GMT+25", "GMT+99", "GMT+03", "GMT-003", "GMT+0000000000000000007", "GMT+0000000000000000000007", "GMT-00000000000000000000000023", "GMT+", "GMT-", "GMT+x", "GMT+3x", "GMT+5:30", "GMT +3", "gmt+3", "UTC+3", "UTC-3", "UT", "Z",
 	"EST", "EDT", "CET", "CEST", "BST", "IST", "MSK", "JST", "AEST", "AEDT", "NZDT", "NST", "NDT", "LMT", "WET", "WEST", "EWT", "EPT", "PST", "PDT", "ChST", "MeST", "WITA", "ABCD", "ABCDE", "ABCDEF",
 	"AB", "abc", "Est", "+03", "-03", "+0330", "-0330", "+0545", "+1030", "+11", "+13", "-05", "+14", "+00", "-00", "+0", "", "MST", "XYZ"}
 
